@@ -12,6 +12,8 @@ extern crate rustc_interface;
 extern crate rustc_middle;
 extern crate rustc_session;
 extern crate rustc_span;
+extern crate rustc_trait_selection;
+extern crate rustc_infer;
 
 mod json;
 use json::J;
@@ -20,7 +22,7 @@ use rustc_hir::def::DefKind;
 use rustc_hir::def_id::{DefId, LocalDefId};
 use rustc_middle::mir::*;
 use rustc_middle::ty::print::with_no_trimmed_paths;
-use rustc_middle::ty::{self, GenericArgKind, GenericArgsRef, Instance, Ty, TyCtxt, TypingEnv};
+use rustc_middle::ty::{self, GenericArgKind, GenericArgsRef, Instance, Ty, TyCtxt, TypingEnv, TypeVisitableExt};
 use rustc_span::Span;
 use std::collections::{BTreeMap, HashMap, HashSet, VecDeque};
 
@@ -773,7 +775,48 @@ fn dump<'tcx>(tcx: TyCtxt<'tcx>, out_dir: &str) {
         }
         adts.push(J::obj(o));
     }
+    // auto traits of every closed (parameter-free) type seen: decided by rustc's trait solver
+    let mut autos = vec![];
+    {
+        use rustc_infer::infer::TyCtxtInferExt;
+        use rustc_trait_selection::infer::InferCtxtExt;
+        let send = tcx.get_diagnostic_item(rustc_span::sym::Send);
+        let sync = tcx.lang_items().sync_trait();
+        let env = TypingEnv::fully_monomorphized();
+        let infcx = tcx.infer_ctxt().build(ty::TypingMode::PostAnalysis);
+        let list: Vec<(Ty<'tcx>, usize)> = cx.ty_map.iter().map(|(t, k)| (*t, *k)).collect();
+        for (t, k) in list {
+            if t.has_non_region_param() || t.has_aliases() || t.has_escaping_bound_vars() || t.has_infer() || t.references_error() {
+                continue;
+            }
+            if !matches!(t.kind(), ty::Adt(..) | ty::Dynamic(..) | ty::Ref(..) | ty::Tuple(..)) {
+                continue;
+            }
+            let t = tcx.erase_and_anonymize_regions(t);
+            let mut o = vec![("ty", i(k))];
+            let r = std::panic::catch_unwind(std::panic::AssertUnwindSafe(|| {
+                let mut v = vec![];
+                if let Some(sd) = send {
+                    v.push(infcx.type_implements_trait(sd, [t], env.param_env).must_apply_modulo_regions());
+                }
+                if let Some(sd) = sync {
+                    v.push(infcx.type_implements_trait(sd, [t], env.param_env).must_apply_modulo_regions());
+                }
+                v.push(t.is_freeze(tcx, env));
+                v
+            }));
+            if let Ok(v) = r {
+                if v.len() == 3 {
+                    o.push(("send", J::Bool(v[0])));
+                    o.push(("sync", J::Bool(v[1])));
+                    o.push(("freeze", J::Bool(v[2])));
+                    autos.push(J::obj(o));
+                }
+            }
+        }
+    }
     let root = J::obj(vec![
+        ("autos", J::Arr(autos)),
         ("crate", s(krate.clone())),
         ("crate_types", s(format!("{:?}", tcx.crate_types()))),
         ("fns", J::Arr(fns)),
